@@ -212,6 +212,9 @@ static void lib_throw(int kind, int arg) {
 			bn_set_dig(k, 0xC0FFEE);
 			bn_lsh(k, k, 100);
 			bn_add_dig(k, k, 12345);
+			/* what relic does with never-initialised table slots after a failed allocation is C08's subject
+			 * (allocsim); here the outcome must not depend on what earlier plans left on the stack */
+			sim_zero_stack();
 			sim_alloc.count = 0;
 			sim_alloc.fired = 0;
 			sim_alloc.fail_at[0] = A > 0 ? 1 + (arg % A) : 0;
